@@ -235,6 +235,36 @@ void harness_first_subscriber_leaves(void)
 	WITNESS_END();
 }
 
+/* ================================================================== more subscribers than the initial table of subscribed fetches holds (it has to grow) */
+static struct peer D;
+void harness_table_growth(void)
+{
+	__CPROVER_assume(element_hashtable_create() == 0);
+	mkpeer(&A, true); mkpeer(&B, true); mkpeer(&C, true); mkpeer(&D, true);
+	int v = (int)nd_range(0, 999);
+#ifdef ADD_FIRST
+	scn_build_begin(); cJSON *add0 = mkreq("add", 1, path_params("a", 5)); scn_build_end();
+	__CPROVER_assume(dispatch(&A, add0) == 0);
+#endif
+	fetch_all(&B, "fb", 2); fetch_all(&C, "fc", 3); fetch_all(&D, "fd", 4);
+	fetch_all(&B, "f2", 5);                             /* a second fetch of the same peer: 4 subscriptions, initial table size 2 */
+#ifndef ADD_FIRST
+	scn_build_begin(); cJSON *add0 = mkreq("add", 1, path_params("a", 5)); scn_build_end();
+	reset_log();
+	__CPROVER_assume(dispatch(&A, add0) == 0);
+	CHECK(count_events(&B, 'a', "a") == 2 && count_events(&C, 'a', "a") == 1 && count_events(&D, 'a', "a") == 1, "C01.add_reaches_every_subscription_exactly_once");
+#endif
+	struct element *e = element_table_get("a");
+	CHECK(e && e->fetch_table_size >= 4, "C01.subscription_table_grew");
+	reset_log();
+	scn_build_begin(); cJSON *chg = mkreq("change", 6, path_params("a", v)); scn_build_end();
+	__CPROVER_assume(dispatch(&A, chg) == 0);
+	CHECK(count_events(&B, 'c', "a") == 2 && count_events(&C, 'c', "a") == 1 && count_events(&D, 'c', "a") == 1, "C01.change_reaches_every_subscription_exactly_once");
+	struct sent *ed = last_of(&D, K_EVENT);
+	if (ed) CHECK(ed->value_int == v && ed->id_str[0] == 'f' && ed->id_str[1] == 'd', "C01.event_carries_value_and_fetch_id");
+	WITNESS_END();
+}
+
 #ifdef SCN_PROBE
 void harness_min(void)
 {
